@@ -18,15 +18,26 @@ through a wrapper and handed to the model as its authenticator script.
 
 Oracle (implementation only = S4): whatever the partition, the messages delivered (parsed: type,
 serial, flags, header fields, body; and raw bytes) are exactly the messages sent, in order.
+
+Stream `parsed-after-framing` (extension 2026-09-30) ties the seam C04/C03: messages built with the real
+constructors, concatenated, cut (also inside the 16-byte fixed headers, at every byte for short streams),
+fed to the real protocol; what `rawDBusMessageReceived` + `message.parseMessage` hand to the `...Received`
+hooks (type, serial, flags, otherFlags, the nine header attributes, the body) is compared with the COMPOSED
+Lean model `receive` (Proto/Receive.lean: framing model, then C03's parseMessage model with C01's codec) -
+the function the theorems `delivers_parsed_messages*` / `receive_delivers_sent_c01` are about.
 """
 import itertools
 import struct
 
 STREAMS = ['binary-cuts', 'binary-random', 'binary-coalesced', 'binary-malformed',
-           'lines-scripted', 'handoff-real-client', 'handoff-real-server', 'handoff-cuts', 'handoff-bigtail', 'handoff-stub', 'binary-unparsable', 'limit-scaled', 'reentrant-delivery']
+           'lines-scripted', 'handoff-real-client', 'handoff-real-server', 'handoff-cuts', 'handoff-bigtail', 'handoff-stub', 'binary-unparsable', 'limit-scaled', 'reentrant-delivery',
+           'parsed-after-framing']
 THEOREMS = ['binary_partition_independent', 'frames_of_messages', 'line_partition_independent',
             'handoff', 'loop_bounded', 'delivers_messages_sent', 'delivers_messages_sent_after_handshake',
-            'model_control_flow_matches_source']
+            'model_control_flow_matches_source',
+            'wellFormed_of_constructed', 'sent_wellFormed_and_parses', 'sent_wellFormed_and_parses_c01',
+            'delivers_parsed_messages', 'delivers_parsed_messages_c01', 'receive_delivers_sent_c01',
+            'delivers_parsed_messages_after_handshake', 'delivers_parsed_messages_after_handshake_c01']
 TRUSTED_BASE = [
     'bytes.split / bytes.join / slicing / struct.unpack("I") mirrored by hand in Proto/Framing.lean '
     '(validated by the correspondence streams)',
@@ -44,9 +55,11 @@ ASSUMPTIONS = [
     'in one read leaves `good` buffered (delivered by the next read), as two reads `good` is delivered at once - '
     'partition-dependent, but only after an exception escaped dataReceived, i.e. on a connection the reactor drops; '
     'the oracle judges such streams up to and including the unparsable message (stream binary-unparsable)',
-    'Spec.WellFormed (length fields consistent) holds for every message _marshal constructs: C03 '
-    'marshal_wellformed gives the byte layout, Proofs/Proto/Frames.lean wellFormed_of_layout turns that layout '
-    'into WellFormed; the two are not composed in one Lean theorem (C04 does not import C03)',
+    'the composed theorems (wellFormed_of_constructed, delivers_parsed_messages*) are about C03\'s code model of '
+    'message.py (Msg/Message.lean) and, in the _c01 forms, C01\'s code model of marshal.py; those models are tied to '
+    'the source by the checks of C03 / C01 and, for the composition, by the stream parsed-after-framing here',
+    'parsed-after-framing: the receiver holds no descriptors (`_receivedFDs == []`, no unix_fds header); what '
+    '`_receivedFDs[m.unix_fds:]` leaves behind is C05',
     'a hand-off case is not judged when the AUTHENTICATOR refused the handshake although it was handed its lines '
     '(authentication is C06 / C07); when lines are missing or altered the case is judged (the handshakes use '
     'well-formed lines and 32-hex-digit GUIDs)',
@@ -318,6 +331,7 @@ def _make_classes():
             self.effects = []
             self.parsed = []
             self.raws = []
+            self.objs = []           # what the ...Received hooks were handed / the name of the parse exception
 
         def rawDBusMessageReceived(self, raw):
             self.effects.append('M' + (bytes(raw).hex() or '-') if len(raw) < 10 ** 7 else 'M<%d bytes>' % len(raw))
@@ -328,6 +342,7 @@ def _make_classes():
                 raise                    # a scheduled handler failure, not a parse error
             except Exception as e:
                 self.parsed.append({'parse-error': type(e).__name__})
+                self.objs.append(type(e).__name__)
                 self.parse_failed = True
                 if not self.swallow:     # as in the real code: the exception escapes dataReceived
                     raise
@@ -336,6 +351,7 @@ def _make_classes():
 
         def methodCallReceived(self, m):
             self.parsed.append(canon_msg(m))
+            self.objs.append(m)
             if self.hook is not None:
                 self.hook(len(self.parsed) - 1)
 
@@ -541,7 +557,8 @@ def observe(ctx, sc):
     else:
         script = sc.get('script', '')
     return {'effects': p.effects, 'final': final, 'parsed': p.parsed, 'raws': p.raws, 'script': script,
-            'crashed': crashed, 'authenticated': bool(p._authenticated), 'parse_failed': p.parse_failed}
+            'crashed': crashed, 'authenticated': bool(p._authenticated), 'parse_failed': p.parse_failed,
+            'objs': p.objs}
 
 
 _MISSING = set()
@@ -569,7 +586,48 @@ def model_line(sc, script):
     mode = sc['mode']
     client = '0' if mode in ('stub-server', 'real-server') else '1'
     auth = '1' if mode == 'binary' else '0'
-    return 'R %s %s %s %s' % (client, auth, script or '-', ' '.join(r or '-' for r in sc['reads']))
+    return '%s %s %s %s %s' % ('P' if sc.get('parse') else 'R', client, auth, script or '-',
+                               ' '.join(r or '-' for r in sc['reads']))
+
+
+_PARSED_ATTRS = ['path', 'interface', 'member', 'error_name', 'reply_serial', 'destination', 'sender',
+                 'signature', 'unix_fds']
+
+
+def attr_str(v):
+    """A header attribute in the driver's syntax (Driver/C04.lean `attrStr`)."""
+    from harness import valcodec as vc
+    if v is None:
+        return 'N'
+    if isinstance(v, bool):
+        return 'b1' if v else 'b0'
+    if isinstance(v, int):
+        return 'i%d' % int(v)
+    if isinstance(v, float):
+        return 'd' + struct.pack('>d', v).hex()
+    if isinstance(v, str):
+        return 's' + vc.str_hex(str(v))
+    return '?other'
+
+
+def parsed_str(m):
+    """What a ...Received hook was handed, in the syntax of the driver command `P` (`showParsed`)."""
+    from harness import valcodec as vc
+    if isinstance(m, str):
+        return 'err ' + m
+    body = getattr(m, 'body', None)
+    try:
+        bs = 'N' if body is None else vc.to_line(list(body))
+    except (ValueError, TypeError) as e:
+        bs = '?%s' % type(e).__name__
+    return 'ok type=%d serial=%d er=%s as=%s of=%d %s body=%s' % (
+        m._messageType, int(m.serial), 'T' if m.expectReply else 'F', 'T' if m.autoStart else 'F',
+        int(getattr(m, 'otherFlags', 0)),
+        ' '.join('%s=%s' % (a, attr_str(getattr(m, a, None))) for a in _PARSED_ATTRS), bs)
+
+
+def parsed_line(obs):
+    return ' ; '.join(parsed_str(m) for m in obs['objs']) or '-'
 
 
 # --------------------------------------------------------------------------------------- judging
@@ -723,7 +781,13 @@ class Batch:
                 ctx.stat('%s:not-authenticated(S3 only)' % stream)
             if out is not None and out[k] is not None:
                 il = impl_line(o)
-                ml = strip_endian(out[k])
+                if sc.get('parse'):
+                    # the composed model: framing part (compared as usual), then the parsed messages
+                    mhead, sep, mparsed = out[k].partition(' || ')
+                    ml = strip_endian(mhead) + sep + mparsed
+                    il = il + ' || ' + parsed_line(o)
+                else:
+                    ml = strip_endian(out[k])
                 if o['parse_failed'] and o['crashed']:
                     # the model frames only: its effects must START with what was delivered before the parse error
                     want = ''.join(e + ' ' for e in o['effects'] if e != '!')
@@ -1180,6 +1244,138 @@ def stream_binary_unparsable(ctx, B):
     B.flush()
 
 
+# --------------------------------------------------------------------------------------- the seam C04 / C03
+BODIES2 = [
+    ('b', lambda rng, S, I: [rng.random() < 0.5]),
+    ('d', lambda rng, S, I: [rng.choice([0.0, -0.0, 1.5, -2.25e10, 3.141592653589793, 1e-300])]),
+    ('o', lambda rng, S, I: [rng.choice(['/', '/a/b', '/org/example/Obj_1'])]),
+    ('g', lambda rng, S, I: [rng.choice(['', 'i', 'a{sv}', '(is)as'])]),
+    ('ynqt', lambda rng, S, I: [I(0, 255), I(-2 ** 15, 2 ** 15 - 1), I(0, 2 ** 16 - 1), I(0, 2 ** 64 - 1)]),
+    ('a(si)', lambda rng, S, I: [[[S(), I(-2 ** 31, 2 ** 31 - 1)] for _ in range(rng.randrange(0, 3))]]),
+    ('aai', lambda rng, S, I: [[[I(-2 ** 31, 2 ** 31 - 1) for _ in range(rng.randrange(0, 3))]
+                                for _ in range(rng.randrange(0, 3))]]),
+    ('(i(ss))y', lambda rng, S, I: [[I(-2 ** 31, 2 ** 31 - 1), [S(), S()]], I(0, 255)]),
+    ('a{us}', lambda rng, S, I: [{I(0, 2 ** 32 - 1): S() for _ in range(rng.randrange(0, 3))}]),
+    ('sas', lambda rng, S, I: [S(), [S() for _ in range(rng.randrange(0, 3))]]),
+    ('xd', lambda rng, S, I: [I(-2 ** 63, 2 ** 63 - 1), rng.choice([2.5, -1e100])]),
+]
+
+
+def gen_body2(rng, short):
+    """Bodies of the stream parsed-after-framing: the 13 shapes of gen_body plus booleans, doubles, object paths,
+    signatures, every integer width, nested containers."""
+    if rng.random() < 0.55:
+        return gen_body(rng, short)
+    sig, mk = rng.choice(BODIES2)
+    return sig, mk(rng, lambda: gen_str(rng, short), lambda lo, hi: gen_int(rng, lo, hi))
+
+
+def gen_constructed(rng, short=False):
+    """One message built with the REAL constructor: any of the four classes, every optional argument present or
+    absent at random, a body or none.  -> (raw bytes, big?, class name, signature).
+    70 %: the constructor's own `rawMessage` (little endian, serial from the process-wide counter);
+    30 %: the same object re-serialised by the reference serializer with a chosen serial, either byte order."""
+    marshal, message, _, _ = _mods()
+    kind = rng.choice(['call', 'ret', 'err', 'sig'])
+    sig, body = gen_body2(rng, short)
+    opt = lambda *c: rng.choice((None,) + c)
+    dest = opt('a.b', ':1.2', 'org.example.Dest')
+    rs = gen_int(rng, 1, 2 ** 32 - 1)
+    if kind == 'call':
+        m = message.MethodCallMessage(rng.choice(['/', '/a', '/org/example/Obj']), rng.choice(['M', 'Get', 'Do_It2']),
+                                      interface=opt('a.b', 'org.example.Iface'), destination=dest,
+                                      signature=sig, body=body, expectReply=rng.random() < 0.6,
+                                      autoStart=rng.random() < 0.6)
+    elif kind == 'ret':
+        m = message.MethodReturnMessage(rs, body=body, destination=dest, signature=sig)
+    elif kind == 'err':
+        m = message.ErrorMessage(rng.choice(['a.b', 'org.freedesktop.DBus.Error.Failed']), rs, destination=dest,
+                                 signature=sig, body=body, sender=opt(':1.7', 'org.example.Sender'))
+    else:
+        m = message.SignalMessage(rng.choice(['/', '/a/b']), rng.choice(['M', 'Changed']),
+                                  rng.choice(['a.b', 'org.example.Iface']), destination=dest, signature=sig, body=body)
+    if rng.random() < 0.7:
+        return bytes(m.rawMessage), False, kind, sig
+    m.serial = gen_int(rng, 1, 2 ** 32 - 1)
+    big = rng.random() < 0.6
+    return serialize(m, big), big, kind, sig
+
+
+def header_cuts(rng, raws):
+    """One cut INSIDE the 16-byte fixed header of every message (positions 1..15 of each)."""
+    pos, cuts = 0, []
+    for r in raws:
+        cuts.append(pos + rng.randrange(1, 16))
+        pos += len(r)
+    return cuts
+
+
+def stream_parsed_after_framing(ctx, B):
+    """The seam C04/C03: constructed messages (all four classes, random optional fields, bodies), concatenated, cut
+    at random points, inside every fixed header, and - short streams - at every byte; binary mode and behind a stub
+    handshake.  S3: the composed model `receive` (driver command P) against what the real hooks are handed.
+    S4: the usual oracle (delivered == sent, raw and parsed, in order)."""
+    rng = ctx.rng
+    name = 'parsed-after-framing'
+
+    def add(raws, reads, meta, hs=None):
+        sc = mk_binary(raws, reads, parse=True)
+        if hs is not None:
+            sc = {'mode': 'stub-client', 'script': 's', 'reads': [r.hex() for r in reads],
+                  'sent': [r.hex() for r in raws], 'handshake': hs.hex(), 'parse': True}
+        stream = b''.join(raws)
+        # does a read boundary fall strictly inside a fixed header?
+        off = len(hs) if hs else 0
+        starts, pos = [], off
+        for r in raws:
+            starts.append(pos)
+            pos += len(r)
+        bounds, q = set(), 0
+        for r in reads[:-1]:
+            q += len(r)
+            bounds.add(q)
+        inside = any(0 < b - st < 16 for b in bounds for st in starts)
+        ctx.stat('%s:cut-inside-fixed-header=%s' % (name, inside))
+        ctx.stat('%s:behind-handshake=%s' % (name, hs is not None))
+        for k, sg, big in meta:
+            ctx.stat('%s:class=%s' % (name, k))
+            ctx.stat('%s:signature=%s' % (name, sg if sg is not None else 'None'))
+            ctx.stat('%s:big-endian=%s' % (name, big))
+        B.add(name, sc)
+
+    n = ctx.scale(quick=220, thorough=6000)
+    for _ in range(n):
+        k = rng.choice([1, 2, 3, 5, 8])
+        built = [gen_constructed(rng, short=rng.random() < 0.5) for _ in range(k)]
+        raws = [b[0] for b in built]
+        meta = [(b[2], b[3], b[1]) for b in built]
+        stream = b''.join(raws)
+        hs = b'BEGIN\r\n' if rng.random() < 0.15 else None
+        pre = hs or b''
+        full = pre + stream
+        parts = [random_partition(rng, full), random_partition(rng, full),
+                 cut(full, [len(pre) + c for c in header_cuts(rng, raws)])]
+        if rng.random() < 0.3:
+            parts.append([full[i:i + 1] for i in range(len(full))])          # byte by byte
+        for reads in parts:
+            if hs is not None and (not reads or not any(reads)):
+                reads = [full]
+            add(raws, reads, meta, hs)
+    # short streams: EVERY single cut position (empty first / last read included)
+    for _ in range(ctx.scale(quick=5, thorough=60)):
+        for _try in range(200):
+            built = [gen_constructed(rng, short=True) for _ in range(2)]
+            if sum(len(b[0]) for b in built) <= 170:
+                break
+        raws = [b[0] for b in built]
+        meta = [(b[2], b[3], b[1]) for b in built]
+        stream = b''.join(raws)
+        ctx.stat('%s:every-byte-stream-len=%s' % (name, bucket(len(stream))))
+        for i in range(len(stream) + 1):
+            add(raws, cut(stream, [i]), meta)
+    B.flush()
+
+
 # --------------------------------------------------------------------------------------- entry points
 def run_one(ctx, stream, sc, oracle=True):
     B = Batch(ctx)
@@ -1222,6 +1418,7 @@ def run(ctx):
     guarded(stream_binary_unparsable)
     guarded(stream_limit)
     guarded(stream_reentrant)
+    guarded(stream_parsed_after_framing)
     for t in SERIALIZER_NOTES[:3]:
         ctx.note(t)
     for st, k in sorted(SKIPPED.items()):
